@@ -2,7 +2,7 @@
 # runs every thorough check in turn (used with `vp run --with-repo`): VERIF_REPO = snapshot of /repo HEAD
 export VERIF_REPO="${VP_RUN_REPO:-/repo}"
 export VERIF_DIR_OVERRIDE="$PWD"
-for id in ${@:-C09 C10 C11 C16 C20 C17 C08 C01 C02 C07 C13 C14 C15 C05 C04 C18}; do
+for id in ${@:-C09 C10 C11 C16 C20 C17 C08 C01 C02 C03 C07 C12 C13 C14 C15 C05 C04 C18}; do
   echo "##### $id thorough  $(date +%T)"
   VERIF_SEED=${VERIF_SEED:-424242} ./check $id thorough 2>&1 | grep -v "^  note" | tail -12
 done
